@@ -178,7 +178,7 @@ def check_smooth(ctx: Ctx):
 
 def main(ctx: Ctx):
     ctx.lean_gate()
-    n = 150 if ctx.tier == "quick" else 4000
+    n = 150 if ctx.tier == "quick" else 25000
     for i in range(n):
         check_backward(ctx)
         if i % 2 == 0:
